@@ -573,6 +573,13 @@ def run_case(case):
             outs = exp.split(" | ")[2].split()
             if not outs or outs[0] != "tx:bind":
                 viol.append(("bind-not-first", f"new connection did not start with bind: {outs}"))
+            # what is owed is re-issued ONCE: the server accepts one bind / claim / release / open / close per
+            # connection and answers a second one with `error`, which ends the session (ServerError)
+            once_only = [o for o in outs if o.split(":")[1] in ("bind", "claim", "release", "open", "close", "allocate")]
+            dup = sorted({o for o in once_only if once_only.count(o) > 1})
+            if dup:
+                viol.append(("resume-duplicate", f"the burst that resumes the session on a new connection repeats {dup}: {outs} "
+                             f"(a conformant server refuses the second one and the wormhole closes itself with ServerError)"))
     names = [n for n, v in summary["events"]]
     for once in ("code", "key", "verifier", "versions", "closed"):
         if names.count(once) > 1:
